@@ -1,5 +1,6 @@
-(* C15 proofs, part 4: on block strings that avoid the listed quirks, Go's
-   BlockStringValueContentBytes (as modelled) computes the specification's BlockStringValue(). *)
+(* C15 proofs, part 4: Go's BlockStringValueContentBytes (as modelled, with the repairs
+   c15_fix_block-blank-only and c15_fix_block-escaped-triple-quote) computes the specification's
+   BlockStringValue() whenever the delimiter re-scan returns the text between the delimiters. *)
 From Gv Require Import lib.Bytes lib.Gql C15.Unicode C15.Model C15.Spec C15.Diag.
 From Coq Require Import Lia ZifyN ZifyNat ZifyBool ZArith.
 Open Scope N_scope.
@@ -257,25 +258,66 @@ Proof.
   destruct (line_blank l); simpl in *; [apply IH; exact H|reflexivity].
 Qed.
 
-Theorem block_value_agrees : forall raw,
-  has_escaped_triple raw = false -> rescan_exact raw = true -> blank_only raw = false ->
-  block_string_value raw = spec_block_value raw.
+(* ---- bytes.ReplaceAll of the escaped triple quote is the specification's unescaping ---- *)
+Fixpoint quotes_ahead (k : nat) (s : bytes) : Prop :=
+  match k with
+  | O => True
+  | S k' => match s with b :: r => b = 34 /\ quotes_ahead k' r | [] => False end
+  end.
+Lemma starts_same : forall s, starts_bs_triple s = starts_esc_triple s.
+Proof. reflexivity. Qed.
+Lemma starts_quotes : forall b r, starts_esc_triple (b :: r) = true -> quotes_ahead 3 r.
 Proof.
-  intros raw Ht Hr Hb.
+  intros b r H. unfold starts_esc_triple in H.
+  destruct r as [|q1 [|q2 [|q3 r']]]; try discriminate.
+  simpl. repeat split; lia.
+Qed.
+Lemma replace_is_unescape : forall s k, quotes_ahead k s -> replace_esc_triple k s = block_unescape s.
+Proof.
+  induction s as [|b r IH]; intros k Hq; [destruct k; reflexivity|].
+  destruct k as [|k'].
+  - cbn [replace_esc_triple block_unescape]. rewrite starts_same.
+    destruct (starts_esc_triple (b :: r)) eqn:E.
+    + apply IH. apply (starts_quotes b r E).
+    + f_equal. apply IH. exact I.
+  - simpl in Hq. destruct Hq as [-> Hq].
+    cbn [replace_esc_triple block_unescape].
+    match goal with |- context [starts_esc_triple ?x] => assert (E : starts_esc_triple x = false) end.
+    { unfold starts_esc_triple. destruct r as [|q1 [|q2 [|q3 r']]]; reflexivity. }
+    rewrite E. f_equal. apply IH. exact Hq.
+Qed.
+
+Lemma drop_blank_all : forall L, forallb line_blank L = true -> sp_drop_blank L = [].
+Proof.
+  induction L as [|l L IH]; intros H; [reflexivity|]. simpl in H. apply Bool.andb_true_iff in H.
+  destruct H as [Hl HL]. cbn [sp_drop_blank]. rewrite <- blank_eq, Hl. apply IH. exact HL.
+Qed.
+Lemma first_nonblank_exists : forall L i j, first_nonblank L i = Some j -> existsb (fun l => negb (line_blank l)) L = true.
+Proof.
+  induction L as [|l L IH]; intros i j H; [discriminate|]. simpl in *.
+  destruct (line_blank l); simpl; [apply (IH (S i) j H)|reflexivity].
+Qed.
+
+Theorem block_value_agrees : forall raw,
+  rescan_exact raw = true -> block_string_value raw = spec_block_value raw.
+Proof.
+  intros raw Hr.
   unfold block_string_value. unfold rescan_exact in Hr. rewrite (bytes_eqb_eq _ _ Hr).
-  unfold spec_block_value. rewrite (unescape_id _ Ht).
+  rewrite (replace_is_unescape raw O I).
+  unfold spec_block_value.
+  set (u := block_unescape raw).
   unfold block_lines_value.
-  rewrite (split_lines_eq (length raw) raw []) by lia.
+  rewrite (split_lines_eq (length u) u []) by lia.
   rewrite remove_indent_eq.
-  change (match sp_lines raw [] with
+  change (match sp_lines u [] with
           | [] => []
-          | l0 :: tail => match sp_common_indent tail with None => sp_lines raw [] | Some c => l0 :: map (skipn c) tail end
-          end) with (sp_remove_indent (sp_lines raw [])).
-  destruct raw as [|b0 raw0].
-  { reflexivity. }
-  unfold blank_only in Hb. rewrite Bool.andb_false_iff in Hb. destruct Hb as [Hb|Hb]; [|discriminate].
-  rewrite (split_lines_eq (length (b0 :: raw0)) (b0 :: raw0) []) in Hb by lia.
-  apply forallb_existsb_neg in Hb.
-  rewrite <- (existsb_map_blank _ _ (remove_indent_blankness (sp_lines (b0 :: raw0) []))) in Hb.
-  rewrite (select_lines _ Hb). apply join_eq.
+          | l0 :: tail => match sp_common_indent tail with None => sp_lines u [] | Some c => l0 :: map (skipn c) tail end
+          end) with (sp_remove_indent (sp_lines u [])).
+  set (L := sp_remove_indent (sp_lines u [])).
+  pose proof (select_lines L) as Hsel.
+  pose proof (first_nonblank_spec L 0) as Hf.
+  destruct (first_nonblank L 0) as [first|] eqn:Ef.
+  - pose proof (Hsel (first_nonblank_exists L 0 first Ef)) as E. unfold trim_end in E.
+    rewrite <- E. apply join_eq.
+  - rewrite (drop_blank_all L Hf). reflexivity.
 Qed.
